@@ -300,7 +300,7 @@ persistent_calculate_checksum(PersistentStorage *store)
     rv.value = store->checksum.initial;
     rv.access = PERSISTENT_ACCESS_IO_ERROR;
 
-    if (store->buffer.data != NULL) {
+    if (store->buffer.data != NULL && store->buffer.size > 0u) {
         data = store->buffer.data;
         bsize = store->buffer.size;
     } else {
@@ -577,7 +577,7 @@ persistent_writen(PersistentStorage *store,
 
     rv = PERSISTENT_ACCESS_IO_ERROR;
 
-    if (store->buffer.data != NULL) {
+    if (store->buffer.data != NULL && store->buffer.size > 0u) {
         data = store->buffer.data;
         bsize = store->buffer.size;
     } else {
